@@ -23,7 +23,7 @@ T = {
          "Each configuration is encoded with use_cpu_flags C-only/SSE2/SSSE3/SSE4.1/AVX2/ALL; output hashes must equal the C-only run.", "Limited to ISA levels of the host."),
  "C07": ("differential execution of every dispatch-table kernel against its C reference (table generated from the rtcd sources), plus exact-size ASan runs", "3/C07",
          "gen/kernels.py parses the SET_* lines and prototypes of the tree under test (781 pointers, 768 with SIMD variants); for each signature class a domain-aware generator produces argument sets (every block size, odd strides, 8/10 bit, zero/max/alternating/ramp/random/planted extremes); the C reference and every variant the host supports run on identical copies and outputs, return values and guard bands are compared byte for byte; the same cases run on exact-size heap blocks under ASan. 750 kernels covered (97.7%), uncovered ones are listed by name in the evidence.",
-         "Argument domains come from the C references' asserts, the repo's unit tests and call sites; narrowed sub-domains are listed in evidence assumptions. AVX-512 variants only in the thorough tier (ENABLE_AVX512 build)."),
+         "Argument domains come from the C references' asserts, the repo's unit tests and call sites; narrowed sub-domains are listed in evidence assumptions. AVX-512 variants are compared on the ENABLE_AVX512 build in both tiers (host CPU permitting). The convolve generators additionally sweep (block size) x (2-tap BILINEAR path) x (averaging / distance-weighted path) deterministically."),
  "C08": ("differential decode: SVT decoder (both pipelines) vs libaom and dav1d, sample-exact, on SVT streams and on streams from an independent encoder (libaom via ctypes)", "3/C08",
          "Forced-feature and random SVT streams (film grain incl. inherited parameters, 10-bit, tiles, screen content, overlays, LR on a 854x480 stream) and 30 (thorough: ~95) libaom-encoded streams exercising tools the SVT encoder never emits (tile groups, non-uniform tiles, 128x128 superblocks, error resilience, S-frames, real superres, segmentation / delta-q / delta-lf, quantisation matrices, lossless, film-grain test vectors, intrabc, global motion) are decoded by the SVT decoder with is_16bit_pipeline 0 and 1 and compared picture by picture with libaom and dav1d; exact-size input buffers under ASan.",
          "The libaom encoder is driven through ctypes with hand-written struct layouts that are self-checked (lib/vf/av1parse_selftest.py); streams outside the decoder's profile (4:0:0, 4:4:4, 12-bit) must be reported as unsupported and are counted."),
@@ -43,7 +43,7 @@ T = {
          "Every NULL-handle / NULL-buffer probe of the 20 encoder and 11 decoder entry points in every protocol state where it is meaningful must return an error code; sequences with 1..5 rejected set_parameter calls followed by a valid one must configure, initialise and encode two pictures; random legal sequences must not contain a call that fails to return (other than the documented blocking wait).",
          "Protocol-illegal orders (e.g. send_picture before init) are outside the statement's three clauses and are not generated. A call that does not return within the watchdog twice is reported as blocking."),
  "C15": ("teardown at every protocol point with thread census, library live-resource counters (hook H8), LeakSanitizer and heap-growth measurement; deadlocks established by observing all threads parked", "3/C15",
-         "Encoder and decoder sessions are torn down after init_handle, after a rejected / accepted set_parameter, after init, mid-stream after k sends with j packets fetched (k 0..40), and after a full drain; deinit + deinit_handle must return, the thread census must be back to its pre-session value, H8 must count zero live memory blocks / mutexes / semaphores / threads, LSan must be clean and the in-use heap must not grow over 30 repeated sessions. A hang is reported only when every thread is observed parked with no context switches (gdb names the kernel and the queue).",
+         "Encoder and decoder sessions are torn down after init_handle, after a rejected / accepted set_parameter, after init, mid-stream after k sends with j packets fetched (k 0..40), and after a full drain; a configuration-diversity stratum tears down after init (and after a short drained encode) configurations that change what init allocates (128x128 superblocks, presets 0/3/4, 10-bit, 16-bit pipeline, tiles, overlays, film grain, VBR/CVBR, long look-ahead, superres, screen content, hl 0/5); deinit + deinit_handle must return, the thread census must be back to its pre-session value, H8 must count zero live memory blocks / mutexes / semaphores / threads, LSan must be clean and the in-use heap must not grow over 30 repeated sessions. A hang is reported only when every thread is observed parked with no context switches (gdb names the kernel and the queue).",
          "Teardown points are enumerated; k is stratified in the quick tier."),
  "C16": ("single-fault injection: the k-th allocation / OS-object creation on the API thread fails (linker --wrap on the white-box archive), ASan, H8, LSan", "3/C16",
          "Run 0 numbers every malloc/calloc/realloc/posix_memalign/pthread_create/sem_init/pthread_mutex_init performed on the calling thread inside init_handle, set_parameter and init (91772 events, numbering identical across runs) with its call site; run k fails exactly the k-th: the API call must return an error, deinit(+deinit_handle) must return, no ASan report, H8 and LSan clean. Quick: every (API, call-site function) x first/middle/last occurrence (541 runs); thorough: all call chains x 3 + every k of set_parameter + 800 random k; decoder: every k of threads=1 and the deterministic prefix of threads=2.",
